@@ -78,3 +78,49 @@ CONTRACTS.update({
             'forall(lambda x, y: ((x, y) in result.edgeset) == ((1 <= x and x <= n and y == n + 1) or (1 <= y and y <= n and x == n + 1)))'],
     },
 })
+
+
+# ---- edge listing of a directed graph (both orders) and the remaining views --------------------------------------------------------
+CLASSMODELS['EdgeListD'] = {'file': G, 'real': 'DirectedEdgeList', 'fields': {'D': 'obj:DirectedGraphRep', 'sort_by_pred': 'bool'}}
+CONTRACTS.update({
+    (G, 'DirectedGraphRep.number_of_vertices'): {'property': ['C16'], 'source': (G, 'DirectedGraph.number_of_vertices'),
+                                                 'params': {'self': 'obj:DirectedGraphRep'}, 'returns': 'int', 'ensures': ['result == self.n']},
+    (G, 'DirectedGraphRep.number_of_edges'): {'property': ['C16'], 'source': (G, 'DirectedGraph.number_of_edges'),
+                                              'params': {'self': 'obj:DirectedGraphRep'}, 'returns': 'int', 'ensures': ['result == card2(self.edgeset)']},
+    (G, 'EdgeListD.__iter__'): {
+        'property': ['C16'],
+        'source': (G, 'DirectedEdgeList.__iter__'),
+        'params': {},
+        'raises': {},
+        # by successors: for every source in order, ALL its successors in list order; by predecessors: for every destination in order,
+        # ALL its predecessors in list order.  Every value yielded is an edge (source, destination); the lists hold each edge once
+        # (class invariant), so every edge is listed exactly once.
+        'loops': {0: {'inv': ['n == self.D.n'], 'exit_ensures': ['_it == self.D.n']},
+                  1: {'inv': ['n == self.D.n'], 'counter': '_j', 'iter_ensures': ['_yielded_now == 1'], 'exit_ensures': ['_j == len(self.D.succ[src])']},
+                  2: {'inv': ['n == self.D.n'], 'exit_ensures': ['_it == self.D.n']},
+                  3: {'inv': ['n == self.D.n'], 'counter': '_j', 'iter_ensures': ['_yielded_now == 1'], 'exit_ensures': ['_j == len(self.D.pred[dest])']}},
+        'yields_at': {0: ['len(yielded) == 2', '(yielded[0], yielded[1]) in self.D.edgeset', 'yielded[0] == 1 + _it', 'yielded[1] == self.D.succ[1 + _it][_j]'],
+                      1: ['len(yielded) == 2', '(yielded[0], yielded[1]) in self.D.edgeset', 'yielded[1] == 1 + _it', 'yielded[0] == self.D.pred[1 + _it][_j]']},
+    },
+})
+
+
+# ---- edge listing of a bipartite graph ----------------------------------------------------------------------------------------------
+CLASSMODELS['EdgeListB'] = {'file': G, 'real': 'BipartiteEdgeList', 'fields': {'B': 'obj:BipartiteGraphRep'}}
+CONTRACTS.update({
+    (G, 'BipartiteGraphRep.left_order'): {'property': ['C16'], 'source': (G, 'BaseBipartiteGraph.left_order'),
+                                          'params': {'self': 'obj:BipartiteGraphRep'}, 'returns': 'int', 'ensures': ['result == self.lorder']},
+    (G, 'BipartiteGraphRep.right_order'): {'property': ['C16'], 'source': (G, 'BaseBipartiteGraph.right_order'),
+                                           'params': {'self': 'obj:BipartiteGraphRep'}, 'returns': 'int', 'ensures': ['result == self.rorder']},
+    (G, 'EdgeListB.__iter__'): {
+        'property': ['C16'],
+        'source': (G, 'BipartiteEdgeList.__iter__'),
+        'params': {},
+        'raises': {},
+        # for every left vertex in order, `yield from` ALL its right neighbours in list order, each paired with the vertex: every value
+        # is an edge; the neighbour lists hold each edge once (class invariant)
+        'loops': {0: {'inv': [], 'exit_ensures': ['_it == zmax(self.B.lorder, 0)']}},
+        'yields_at': {0: ['(yielded[0], yielded[1]) in self.B.edgeset', 'yielded[0] == 1 + _it', '(1 + _it) in self.B.ladj',
+                          '_ylen == len(self.B.ladj[1 + _it])', 'yielded[1] == self.B.ladj[1 + _it][_yt]']},
+    },
+})
